@@ -26,7 +26,7 @@ func runGentest(args []string) int {
 	if kind == "rolesc11" {
 		cnt := map[string]int{}
 		for i := 0; i < n; i++ {
-			p := genOwnProgramFull(prng.Stream(seed, "c11", "gen", i), i, true, i%2 == 0, i%3 == 0)
+			p := genOwnProgramFull(prng.Stream(seed, "c11", "gen", i), i, false, i%2 == 0, i%3 == 0)
 			for _, r := range p.Roles {
 				cnt[r]++
 			}
@@ -42,7 +42,7 @@ func runGentest(args []string) int {
 		return 0
 	}
 	if kind == "showc11" {
-		p := genOwnProgramOpt(prng.Stream(seed, "c11", "gen", n), n, true, n%2 == 0)
+		p := genOwnProgramOpt(prng.Stream(seed, "c11", "gen", n), n, false, n%2 == 0)
 		fmt.Println(string(p.Files[p.Root]))
 		return 0
 	}
